@@ -107,6 +107,15 @@ reg("jax:updated_lagrange(neo_hooke)", "jax", st.fixed_dictionaries({"mu": fl(0.
 NAMES = list(REG)
 
 
+def reg_scale(name, params):
+    """stress scale that the documented eigenvalue regularisation (delta = 1e-4) of a jax model acts on, where it is not the
+    stiffness: the extended tube model adds principal terms -2 Ge / beta * lambda^(-beta - 1) that cancel only for exactly
+    isochoric principal stretches, and the perturbed eigenvalues are isochoric only up to delta"""
+    if name.endswith("extended_tube"):
+        return 2.0 * params["Ge"] / params["beta"]
+    return 0.0
+
+
 def _jax64():
     import jax
 
@@ -248,15 +257,18 @@ def rotations(rng, n):
     return Rotation.random(n, random_state=int(rng.integers(0, 2**31))).as_matrix()
 
 
-def make_F(rng, batch, lam=(0.7, 1.5), sep=True):
-    """F = R U, U = Q diag(lambda) Q^T, principal stretches in `lam`, pairwise separated by >= 0.4 * (range / 6)."""
+def make_F(rng, batch, lam=(0.7, 1.5), sep=True, Q=None):
+    """F = R U, U = Q diag(lambda) Q^T, principal stretches in `lam`, pairwise separated by >= 0.4 * (range / 6).
+
+    `Q` fixes the principal axes (one rotation per batch item): states built with the same Q are coaxial."""
     n = int(np.prod(batch))
     lo, hi = lam
     grid = np.linspace(lo, hi, 7)
     step = grid[1] - grid[0]
     F = np.zeros((3, 3, n))
     R = rotations(rng, n)
-    Q = rotations(rng, n)
+    Qr = rotations(rng, n)
+    Q = Qr if Q is None else Q
     for i in range(n):
         if sep:
             l = rng.choice(grid, 3, replace=False) + rng.uniform(-0.3, 0.3, 3) * step
@@ -269,24 +281,44 @@ def make_F(rng, batch, lam=(0.7, 1.5), sep=True):
 
 def st_Fcase(batches=((1, 1), (2, 3), (1, 4), (3, 1))):
     return st.fixed_dictionaries({"fseed": st.integers(0, 2**32 - 1), "batch": st.sampled_from([list(b) for b in batches]),
-                                  "hist": st.lists(st.fixed_dictionaries({"seed": st.integers(0, 2**16), "scale": fl(0.3, 1.3)}), min_size=0, max_size=3)})
+                                  "hist": st.lists(st.fixed_dictionaries({"seed": st.integers(0, 2**16), "scale": fl(0.3, 1.3)}), min_size=0, max_size=3),
+                                  "coaxial": st.booleans()})
 
 
-def drive_history(name, um, sv, F_end, hist, rng_batch, lam):
-    """drive a history-dependent model through generated admissible states; returns the committed state."""
+def coaxial_Q(Fcase, batch):
+    """fixed principal axes of a coaxial history (all right Cauchy-Green tensors of the history commute), else None"""
+    if not Fcase.get("coaxial"):
+        return None
+    return rotations(np.random.default_rng([int(Fcase["fseed"]), 77]), int(np.prod(batch)))
+
+
+def stretch_scaled(Fx, Q, s):
+    """rotation-free state Q diag(1 + s (l - 1)) Q^T with the principal stretches l of Fx = R Q diag(l) Q^T"""
+    C = np.einsum("ji...,jk...->ik...", Fx, Fx).reshape(3, 3, -1)
+    out = np.zeros_like(C)
+    for i in range(C.shape[-1]):
+        l = np.sqrt(np.diag(Q[i].T @ C[:, :, i] @ Q[i]))
+        out[:, :, i] = Q[i] @ np.diag(1 + s * (l - 1)) @ Q[i].T
+    return np.ascontiguousarray(out.reshape(Fx.shape))
+
+
+def drive_history(name, um, sv, F_end, hist, rng_batch, lam, Q=None):
+    """drive a history-dependent model through generated admissible states; returns the committed state.
+
+    With `Q` (see coaxial_Q; F_end built with the same Q) every state of the history shares the principal axes of C."""
     I = np.eye(3).reshape((3, 3) + (1,) * (F_end.ndim - 2))
     for h in hist:
         r = np.random.default_rng(h["seed"])
         if h["seed"] % 2 == 0:
             # same direction, larger amplitude: the final state is then an unloading state (pseudo-elastic models)
-            Fh = I + (1.15 + 0.5 * h["scale"]) * (F_end - I)
+            Fh = I + (1.15 + 0.5 * h["scale"]) * (F_end - I) if Q is None else stretch_scaled(F_end, Q, 1.15 + 0.5 * h["scale"])
         else:
-            Fh = make_F(r, F_end.shape[2:], lam)
-            Fh = I + h["scale"] * (Fh - I)
+            Fh = make_F(r, F_end.shape[2:], lam, Q=Q)
+            Fh = I + h["scale"] * (Fh - I) if Q is None else stretch_scaled(Fh, Q, h["scale"])
         # keep det > 0 by construction (convex combination towards I for scale <= 1; scale up to 1.3 of amplitudes <= 0.5)
         if np.linalg.det(np.moveaxis(Fh, (0, 1), (-2, -1))).min() < 0.2:
             continue
-        if np.abs(Fh - F_end).reshape(9, -1).max(0).min() < 0.02:
+        if np.abs(Fh - (F_end if Q is None else stretch_scaled(F_end, Q, 1.0))).reshape(9, -1).max(0).min() < 0.02:
             continue  # rate-type models: a zero increment is a documented non-smooth point (0/0)
         out = um.gradient([Fh.copy(), sv])
         sv = np.array(out[-1], dtype=float).copy()
